@@ -141,6 +141,48 @@ def build(S):
             S.add_canary(I, "find/recheck/canary#%d" % k, p.pc)
         S.add_interp_obligations(I)
     S.guarded('re-check block', run_guard)
+
+    def run_start_atoms():
+        # helpers.atoms_of_type(types, element): the start atoms of the search are exactly the atoms whose element EQUALS the first pattern element
+        # (arbitrary list of element names, arbitrary name), in index order; and find_pattern_in_structure takes its start atoms from it
+        from pyvc import models_ext, models_np
+        from pyvc.values import SymSeq, StrS
+        S.function('mofun/helpers.py', 'atoms_of_type')
+        I = S.interp()
+        models_py.install(I)
+        models_np.install(I)
+        models_ext.install(I)
+        INT = z3.IntSort()
+        n = z3.Int('n_types')
+        types = SymSeq(n, [z3.Array('elements_of_the_atoms', INT, StrS)], None, 'list', 'types')
+        el = z3.Const('wanted_element', StrS)
+        clo = I.closure_for('mofun/helpers.py', 'atoms_of_type')
+
+        def thunk():
+            I.assume(n >= 0)
+            return I.call_closure(clo, [types, Sym(el)], {})
+        paths = I.explore(thunk)
+        for i, p in enumerate(paths):
+            fl = p.notes.get('filters', [])
+            if p.outcome != 'return' or len(fl) != 1 or not isinstance(p.value, SymSeq) or p.value is not fl[0]['seq']:
+                raise OutOfSubset("atoms_of_type is not one filtering comprehension over enumerate(types)")
+            f = fl[0]
+            k = z3.Int('sa_k')
+            # stated for an arbitrary index k (a constant) and without the path's quantified facts about the filter: the filter condition and the
+            # collected value are closed expressions of the inputs, so a wrong condition is REFUTED (quantifier-free counter-model), not left open
+            S.add(I, "atoms_of_type/post/keeps-exactly-the-atoms-whose-element-equals-the-wanted-one#%d" % i, [],
+                  z3.Implies(z3.And(k >= 0, k < n), f['keep'](k) == (z3.Select(types.cols[0], k) == el)), clause='(1) the first atom of a match has the first pattern element')
+            S.add(I, "atoms_of_type/post/returns-their-indices#%d" % i, [],
+                  z3.Implies(z3.And(k >= 0, k < n), f['elem'](k) == k), clause='(1) the first atom of a match has the first pattern element')
+            S.add_canary(I, "atoms_of_type/canary#%d" % i, p.pc)
+        S.add_interp_obligations(I)
+        fn = I.module(REL).find(FN)
+        uses = [c for c in ast.walk(fn) if isinstance(c, ast.Call) and ast.unparse(c.func).split('.')[-1] == 'atoms_of_type']
+        ok = len(uses) == 1 and len(uses[0].args) == 2 and ast.unparse(uses[0].args[1]) == 'pattern.elements[0]'
+        if not uses:
+            raise OutOfSubset("find_pattern_in_structure no longer takes its start atoms from atoms_of_type (contract no longer applies)")
+        S.add(I, "find/start-atoms/are-the-atoms-of-the-first-pattern-element", [], z3.BoolVal(bool(ok)), clause='(1) the first atom of a match has the first pattern element')
+    S.guarded('start atoms', run_start_atoms)
     S.clause('(3) rotation + translation within atol for every reported ordering', 'PROVED as guard obligation (block contract) under the assumed np.allclose / scipy Rotation contracts')
     S.clause('(1) indices valid, elements equal; (2) lattice offsets; (4) distinct atoms', 'BOUNDED (run-time postconditions on planted structures)')
     S.clause('mirror images never reported', 'follows from (3) with the ASSUMED properness of scipy rotations; BOUNDED with mirror-image decoys')
